@@ -71,7 +71,12 @@ def run(chk: Check):
         base = base_scn(rng, sched)
         # every second pair of base scenarios fails with a BaseException that is not an Exception (KeyboardInterrupt-like)
         base.fault_base = (bi // 2) % 2 == 1
-        chk.count("fault_class:" + ("BaseException" if base.fault_base else "Exception"))
+        # ... and the Exception ones rotate through classes that protocols give a meaning to (StopIteration ends a for/map/list silently,
+        # GeneratorExit is a BaseException, OSError / ArithmeticError are caught by some libraries)
+        base.fault_class = "base" if base.fault_base else ["exception", "stop_iteration", "os_error", "arithmetic"][(bi // 4 + bi) % 4]
+        if base.fault_base and (bi // 4) % 2 == 1:
+            base.fault_class = "generator_exit"
+        chk.count("fault_class:" + base.fault_class)
         free_lines, free_info = run_quiet(base)
         nS, nM, nL = ch.STATE["sampler_calls"], ch.STATE["model_calls"], ch.STATE["loss_calls"]
         space = [("S", k) for k in range(nS)] + [("M", k) for k in range(nM)] + [("L", k) for k in range(nL)]
